@@ -82,8 +82,13 @@ fn message(r: &mut Rng) -> BString {
 
 fn extra_header(r: &mut Rng) -> (BString, BString, u8) {
     let name = r.pick(&["gpgsig", "mergetag", "x-custom", "HG:rename-source", "gpgsig-sha256"]).to_string();
-    let shape = r.below(6) as u8;
+    let shape = r.below(8) as u8;
     let value: String = match shape {
+        6 => "crlf first\r\nsecond\nthird\r\nlast".into(),
+        7 => {
+            let n = 1 + r.usize(24);
+            String::from_utf8_lossy(&r.bytes_from(n, b"ab \n\r-\t")).to_string()
+        }
         0 => "single line".into(),
         1 => "-----BEGIN PGP SIGNATURE-----\n\niQEzBAABCAAdFiEE\n=abcd\n-----END PGP SIGNATURE-----".into(),
         2 => "line one\nline two".into(),
@@ -105,7 +110,7 @@ struct Built {
     obj: Object,
     /// equality after decode is demanded
     roundtrip: bool,
-    shape: (u8, u32, u32, u8, u8),
+    shape: (u8, u32, u32, u8, u16),
     times: Vec<Time>,
 }
 
@@ -117,7 +122,7 @@ fn build(r: &mut Rng) -> Built {
             let np = *r.pick(&[0usize, 1, 1, 2, 3, 16]);
             let parents: Vec<ObjectId> = (0..np).map(|_| rid(r)).collect();
             let nh = r.usize(4);
-            let mut hdr_bits = 0u8;
+            let mut hdr_bits = 0u16;
             let mut hdr_rt = true;
             let mut extra_headers = Vec::new();
             for _ in 0..nh {
@@ -125,14 +130,14 @@ fn build(r: &mut Rng) -> Built {
                 hdr_bits |= 1 << shape;
                 // values that end in a newline, start with one, or are random are outside the
                 // sub-domain where decode is asked to reproduce the value byte for byte
-                if shape == 3 || shape == 5 {
+                if shape == 3 || shape == 5 || shape == 7 {
                     hdr_rt = false;
                 }
                 extra_headers.push((n, v));
             }
             let encoding = if r.chance(1, 4) { Some(BString::from(*r.pick(&["ISO-8859-1", "UTF-8", "x"]))) } else { None };
             if encoding.is_some() {
-                hdr_bits |= 0x80;
+                hdr_bits |= 0x8000;
             }
             let msg = message(r);
             let mclass = if msg.is_empty() { 0 } else if msg.ends_with(b"\n") { 1 } else { 2 };
@@ -181,7 +186,7 @@ fn build(r: &mut Rng) -> Built {
             Built {
                 obj: Object::Tag(Tag { target: rid(r), target_kind: kind, name: name.into(), tagger, message: msg, pgp_signature: pgp }),
                 roundtrip: rt && rt_msg && !with_sig,
-                shape: (1, d + if neg { 100 } else { 0 }, with_tagger as u32, mclass, with_sig as u8),
+                shape: (1, d + if neg { 100 } else { 0 }, with_tagger as u32, mclass, with_sig as u16),
                 times,
             }
         }
